@@ -711,6 +711,15 @@ Fixpoint render (c : ctx) (p : pz) (t : term) {struct t} : res (str * pz) :=
           end
         end
       end
+  (* MySQLLoadQueryBuilder.get_sql *)
+  | TLoad file tbl =>
+      match file, tbl with
+      | Some (x :: xs), SomeT tb =>
+          do (st, p1) <- render c p tb;
+          Ok (L "LOAD DATA LOCAL INFILE " ++ fquote (secondary_quote_char c) (bsd (dial_eqb (dialect c) MYSQL) (x :: xs)) ++
+              L " INTO TABLE " ++ st ++ L " FIELDS TERMINATED BY ','", p1)
+      | _, _ => Ok ([], p)
+      end
   (* DropQueryBuilder.get_sql *)
   | TDrop tbl if_exists =>
       match tbl with
